@@ -481,7 +481,7 @@ func (t *TS) execFn(fn *ssa.Function, args []AV, binds []AV, s *State) []outcome
 					// a status variable takes an error constant here: a refusal is decided on this path
 					if cst, isC := phi.Edges[idx].(*ssa.Const); isC && isNamedStatus(phi.Type()) {
 						if k, isk := constInt(cst); isk && k != 0 && strings.HasSuffix(phi.Type().String(), "Nfsstat3") {
-							st.G.Cells["$refusal"] = AV{K: KInt, I: k, Src: t.c.P.Pos(it.pred.Instrs[len(it.pred.Instrs)-1].Pos())}
+							st.G.Cells["$refusal"] = AV{K: KInt, I: k, Src: t.c.P.Pos(phi.Pos())}
 						}
 					}
 					if tag, ok := st.G.Cells[resKey(phi.Edges[idx], -1)]; ok {
